@@ -72,19 +72,74 @@ BASES = {   # valid detached signatures over content 1: the undamaged inputs of 
     "two-signers": cms([C1, C2], [signer(), signer("isn", "B", 2, "", "sha512", 2)]),
 }
 
-# Signed fixtures made by an independent implementation: `openssl cms -sign -binary -md ... -signer certA -inkey key1`
-# over content 1 (certA = the driver's certificate 1, exported once).  Descriptions = what openssl was asked to make.
+# Signed fixtures made by an independent implementation (openssl 3.5.6):
+#   openssl cms -sign -binary [-noattr] [-nodetach] [-keyid] -md <digest> -in content1 -signer certA.pem -inkey key1.pem -outform DER
+# certA = the driver's certificate 1 (exported once), key1 = the driver's test key 1.  The descriptions say what openssl
+# was asked to make; with attributes openssl also signs signingTime and sMIMECapabilities (nothing the model looks at).
 OPENSSL_FIXTURES = [
-    ("noattr detached sha256", cms([C1], [signer()]),
-     "3082029406092a864886f70d010702a08202853082028102010131"),   # replaced at import time by the full blobs below
+    {"name": "detached, no attributes, issuer+serial, sha256", "cms": cms([C1], [signer()]), "hex": (
+     "3082029406092a864886f70d010702a082028530820281020101310d300b0609608648016503040201300b06092a864886f70d010701a08201a33082"
+     "019f30820108a003020102020101300d06092a864886f70d01010b0500300c310a300806035504030c0141301e170d3230303130313030303030305a"
+     "170d3439313233313233353935395a300c310a300806035504030c014130819f300d06092a864886f70d010101050003818d0030818902818100e2df"
+     "f2ca3777411b0209adf07f49c1222f4037d01ba229ef19acda045a8a7018ba9b5cd921773eef3049e73dc436716c59786d11d0a0204e06a53fcd365f"
+     "857338885d4d62cb278af7a2bee129db5b2a936d174bef3e7427a1316d0b1ca8094c9df753ed4b60438b109df19a695bbad1230665f03df2fc6fef7c"
+     "68c347d44dfb0203010001a311300f300d0603551d0e04060404a1b2c3d4300d06092a864886f70d01010b050003818100c3d176cf5811f981ee7202"
+     "09461315f93333037eacaabf7d11d37aa83c8ee46b09fb8e9e01602465c219309be6e40ff12c7eb5117eb772c7de0bff9ce4b43248da539289fc46d4"
+     "532a6dbb6738dec528890e9c4be3d7b734d39f88be4db5d67f83b6b4f77e9b8e83bcba15c86466845f4fea5af01083a96c015b25f33fb3472a3181b8"
+     "3081b50201013011300c310a300806035504030c0141020101300b0609608648016503040201300d06092a864886f70d010101050004818084e8f438"
+     "4bb0c10c818f64b63b6aa139ba767292687a66e7531258dadcc8a6674681bbf97ffd54fb7333ada5c18ccf01e20f358e16365bbf1655dc160f26dfc2"
+     "455cdd100d48743eb77e8ffd664dd722de6299ba7acdcdbfd2eff8da28dba3e32d649e473d989b42a3b1eb036f2956e963a93edc40572c8638d10e7b"
+     "33aadd06")},
+    {"name": "detached, signed attributes, issuer+serial, sha256", "cms": cms([C1], [signer(over="attrs", oc=0, attrs=True, md=1)]), "hex": (
+     "3082037d06092a864886f70d010702a082036e3082036a020101310d300b0609608648016503040201300b06092a864886f70d010701a08201a33082"
+     "019f30820108a003020102020101300d06092a864886f70d01010b0500300c310a300806035504030c0141301e170d3230303130313030303030305a"
+     "170d3439313233313233353935395a300c310a300806035504030c014130819f300d06092a864886f70d010101050003818d0030818902818100e2df"
+     "f2ca3777411b0209adf07f49c1222f4037d01ba229ef19acda045a8a7018ba9b5cd921773eef3049e73dc436716c59786d11d0a0204e06a53fcd365f"
+     "857338885d4d62cb278af7a2bee129db5b2a936d174bef3e7427a1316d0b1ca8094c9df753ed4b60438b109df19a695bbad1230665f03df2fc6fef7c"
+     "68c347d44dfb0203010001a311300f300d0603551d0e04060404a1b2c3d4300d06092a864886f70d01010b050003818100c3d176cf5811f981ee7202"
+     "09461315f93333037eacaabf7d11d37aa83c8ee46b09fb8e9e01602465c219309be6e40ff12c7eb5117eb772c7de0bff9ce4b43248da539289fc46d4"
+     "532a6dbb6738dec528890e9c4be3d7b734d39f88be4db5d67f83b6b4f77e9b8e83bcba15c86466845f4fea5af01083a96c015b25f33fb3472a318201"
+     "a03082019c0201013011300c310a300806035504030c0141020101300b0609608648016503040201a081e4301806092a864886f70d010903310b0609"
+     "2a864886f70d010701301c06092a864886f70d010905310f170d3236303932363038323535365a302f06092a864886f70d01090431220420b0704d5d"
+     "b6d1c3b347a18e5864183ae264998dfcec51bcf86bdba2144e5f9dec307906092a864886f70d01090f316c306a300b060960864801650304012a300b"
+     "0609608648016503040116300b0609608648016503040102300a06082a864886f70d0307300e06082a864886f70d030202020080300d06082a864886"
+     "f70d0302020140300706052b0e030207300d06082a864886f70d0302020128300d06092a864886f70d01010105000481802b1e194e695a563852c96e"
+     "e3a0e9058734413d3e20311e515eaa4764561ec67171ebfef47cb22f6e86f5de336c68547bc63b26ff9d53dac0555d195da803d59e18f5e772039c8c"
+     "15322884cd65abba86fdb6144be4f66e6e153c12ab902092ea06aa29ee737a2c1d370af2cf209e69deb49e6cdb396b6563af2b855fde5989ab")},
+    {"name": "attached, no attributes, issuer+serial, sha256", "cms": cms([C1], [signer()], econtent=1), "hex": (
+     "3082035d06092a864886f70d010702a082034e3082034a020101310d300b06096086480165030402013081d306092a864886f70d010701a081c50481"
+     "c2526567696f6e21535452494e473a307c4275696c64436f6e666967214845583a31367c43444e436f6e666967214845583a31367c4275696c644964"
+     "214445433a347c56657273696f6e734e616d6521537472696e673a300a2323207365716e203d20323234313238320a75737c62653262623938646332"
+     "386165653035626265653531393339333639366364627c66616337376239636135326338346163323861643833613764626531633832397c36313439"
+     "317c31312e312e302e36313439310aa08201a33082019f30820108a003020102020101300d06092a864886f70d01010b0500300c310a300806035504"
+     "030c0141301e170d3230303130313030303030305a170d3439313233313233353935395a300c310a300806035504030c014130819f300d06092a8648"
+     "86f70d010101050003818d0030818902818100e2dff2ca3777411b0209adf07f49c1222f4037d01ba229ef19acda045a8a7018ba9b5cd921773eef30"
+     "49e73dc436716c59786d11d0a0204e06a53fcd365f857338885d4d62cb278af7a2bee129db5b2a936d174bef3e7427a1316d0b1ca8094c9df753ed4b"
+     "60438b109df19a695bbad1230665f03df2fc6fef7c68c347d44dfb0203010001a311300f300d0603551d0e04060404a1b2c3d4300d06092a864886f7"
+     "0d01010b050003818100c3d176cf5811f981ee720209461315f93333037eacaabf7d11d37aa83c8ee46b09fb8e9e01602465c219309be6e40ff12c7e"
+     "b5117eb772c7de0bff9ce4b43248da539289fc46d4532a6dbb6738dec528890e9c4be3d7b734d39f88be4db5d67f83b6b4f77e9b8e83bcba15c86466"
+     "845f4fea5af01083a96c015b25f33fb3472a3181b83081b50201013011300c310a300806035504030c0141020101300b060960864801650304020130"
+     "0d06092a864886f70d010101050004818084e8f4384bb0c10c818f64b63b6aa139ba767292687a66e7531258dadcc8a6674681bbf97ffd54fb7333ad"
+     "a5c18ccf01e20f358e16365bbf1655dc160f26dfc2455cdd100d48743eb77e8ffd664dd722de6299ba7acdcdbfd2eff8da28dba3e32d649e473d989b"
+     "42a3b1eb036f2956e963a93edc40572c8638d10e7b33aadd06")},
+    {"name": "detached, no attributes, subject key identifier, sha512",
+     "cms": cms([C1], [signer("ski", "", 0, "a1b2c3d4", "sha512")]), "hex": (
+     "3082028706092a864886f70d010702a082027830820274020103310d300b0609608648016503040203300b06092a864886f70d010701a08201a33082"
+     "019f30820108a003020102020101300d06092a864886f70d01010b0500300c310a300806035504030c0141301e170d3230303130313030303030305a"
+     "170d3439313233313233353935395a300c310a300806035504030c014130819f300d06092a864886f70d010101050003818d0030818902818100e2df"
+     "f2ca3777411b0209adf07f49c1222f4037d01ba229ef19acda045a8a7018ba9b5cd921773eef3049e73dc436716c59786d11d0a0204e06a53fcd365f"
+     "857338885d4d62cb278af7a2bee129db5b2a936d174bef3e7427a1316d0b1ca8094c9df753ed4b60438b109df19a695bbad1230665f03df2fc6fef7c"
+     "68c347d44dfb0203010001a311300f300d0603551d0e04060404a1b2c3d4300d06092a864886f70d01010b050003818100c3d176cf5811f981ee7202"
+     "09461315f93333037eacaabf7d11d37aa83c8ee46b09fb8e9e01602465c219309be6e40ff12c7eb5117eb772c7de0bff9ce4b43248da539289fc46d4"
+     "532a6dbb6738dec528890e9c4be3d7b734d39f88be4db5d67f83b6b4f77e9b8e83bcba15c86466845f4fea5af01083a96c015b25f33fb3472a3181ab"
+     "3081a80201038004a1b2c3d4300b0609608648016503040203300d06092a864886f70d01010105000481801d27a69da5fb852f2de87f72a845e2cc43"
+     "4ea491f32f16602a439fd4a78b130eb42448ef1fd1fe2be97b1ca103f0112abd71a689b3087951804d0722fd631cfb462b21d351196842052692bd3d"
+     "626b09dbcbc55c99cf644c87e04d47433fc15ecf720cd09286839328d9c0e3d9b677594c03af92e055d311eeb7519b34b43d29")},
 ]
 
 
 def _load_fixtures():
-    p = os.path.join(os.path.dirname(os.path.abspath(__file__)), "x07_fixtures.json")
-    if not os.path.exists(p):
-        return []
-    return json.load(open(p))
+    return OPENSSL_FIXTURES
 
 
 # --------------------------------------------------------------------------- judge
@@ -170,11 +225,11 @@ def gen(ctx, family, wide, depth):
 
 
 DESIGN_PLAN = [   # (finding, family, Fdev, invariant TLC must refute)
-    ("FX07a", "verify", ["FX07a"], "SoundInv"),
-    ("FX07b", "verify", ["FX07b"], "SoundInv"),
-    ("FX07b", "verify", ["FX07b"], "CompleteInv"),
-    ("FX07a", "mime", ["FX07a"], "MimeInv"),
-    ("FX07f", "mime", ["FX07f"], "DefaultVerifiesInv"),
+    ("FX07a", "verify", ["FX07a"], "SoundW"),
+    ("FX07b", "verify", ["FX07b"], "SoundW"),
+    ("FX07b", "verify", ["FX07b"], "CompleteW"),
+    ("FX07a", "mime", ["FX07a"], "AuthenticW"),
+    ("FX07f", "mime", ["FX07f"], "DefaultW"),
 ]
 
 
@@ -265,14 +320,14 @@ def detect_programs():
 def random_programs(seed, quick):
     rng = random.Random(seed * 1000003 + 7)
     out = []
-    n = 150 if quick else 1500
+    n = 150 if quick else 5000
     for _ in range(n):
         r = rng.random()
         if r < 0.2:      # literal garbage, some of it DER-looking
             ln = rng.choice([0, 1, 2, 5, 16, 64, 300])
             b = bytes(rng.randrange(256) for _ in range(ln))
             if rng.random() < 0.5 and ln >= 2:
-                b = bytes([0x30, rng.choice([0x80, 0x81, 0x82, 0x84, 0x89, 0xff, ln - 2])]) + b[2:]
+                b = bytes([0x30, rng.choice([0x80, 0x81, 0x82, 0x84, 0x89, 0xff, (ln - 2) & 0x7f])]) + b[2:]
             out.append({"kind": "raw", "what": "garbage", "hex": b.hex(), "expect": "any", "novalid": True})
         elif r < 0.3:    # deeply nested / oversized lengths
             depth = rng.choice([10, 100, 1000, 5000])
@@ -318,8 +373,9 @@ def selftest(ctx, traces, kd):
     base = verdict(("base", ls))
     dev_lines = {d[0] for d in base["deviations"]}
 
-    def pick(pred):
-        return next(i for i, l in enumerate(ls) if (i + 1) not in base["violations"] and (i + 1) not in dev_lines and pred(json.loads(l)))
+    def pick(pred, devs_too=False):
+        return next(i for i, l in enumerate(ls) if (i + 1) not in base["violations"] and (devs_too or (i + 1) not in dev_lines)
+                    and pred(json.loads(l)))
 
     edits = [
         # (a) an unverified signature reported as verified
@@ -333,7 +389,7 @@ def selftest(ctx, traces, kd):
         ("data_replaced", pick(lambda e: e["op"] == "mime_legacy" and e["res"]["class"] == "ok"),
          lambda e: e["res"].__setitem__("data_md5", "0" * 32)),
         # (d) the certificate command of another identifier
-        ("other_command", pick(lambda e: e["op"] == "pem" and e["res"]["class"] == "ok" and e["id"] == "a1b2c3d4"),
+        ("other_command", pick(lambda e: e["op"] == "pem" and e["res"]["class"] == "ok" and e["id"] == "a1b2c3d4", devs_too=True),
          lambda e: e.__setitem__("cmds", [e["cmds"][0].replace("a1b2c3d4", "a1b2c3d5")])),
         # (e) a TACT request for another path
         ("other_path", pick(lambda e: e["op"] == "req" and e["client"] == "tact"),
@@ -353,10 +409,14 @@ def selftest(ctx, traces, kd):
         e = json.loads(edited[i])
         edit(e)
         edited[i] = json.dumps(e, separators=(",", ":"))
-    # (i) a successful index download that is not a run boundary is dropped: the next hit has no explanation
-    ib = next(i for i, l in enumerate(ls) if '"op":"idx"' in l and '"class":"ok"' in l and '"reqs":[]' not in l
-              and any('"op":"idx"' in m and '"reqs":[],' in m and json.loads(m)["k"] == json.loads(l)["k"] for m in ls[i + 1:i + 4]
-                      if not lib.is_new(m)) and not any(lib.is_new(m) for m in ls[i + 1:i + 2]))
+    # (i) a successful index download is dropped: the hit that follows it has no explanation
+    def hit_after(i):
+        if i + 1 >= len(ls) or lib.is_new(ls[i + 1]):
+            return False
+        a, b = json.loads(ls[i]), json.loads(ls[i + 1])
+        return (a.get("op") == "idx" and b.get("op") == "idx" and a.get("k") == b.get("k") and a["res"]["class"] == "ok" and a["reqs"] != []
+                and b["reqs"] == [] and b["res"]["class"] == "ok")
+    ib = next(i for i in range(len(ls)) if '"op":"idx"' in ls[i] and hit_after(i))
     dropped = list(ls)
     del dropped[ib]
     with ThreadPoolExecutor(max_workers=2) as ex:
@@ -372,7 +432,8 @@ def selftest(ctx, traces, kd):
     if kd:
         vn = lib.tlc_trace(ctx, MODULE_T, t_cfg(ctx, [], "t_sig_nodev.cfg"), ctx.path("selftest_base.ndjson"))
         explained = {d[0] for d in base["deviations"]}
-        ok = set(vn["violations"]) == explained | set(base["violations"]) and len(explained) > 0
+        # (on /repo the sample must contain deviation events; a scratch tree that carries fixes may have none)
+        ok = set(vn["violations"]) == explained | set(base["violations"]) and (len(explained) > 0 or lib.REPO != "/repo")
         ctx.cov["binding_selftest"]["deviations_rejected_when_not_listed"] = ok
         ctx.cov["binding_selftest"]["deviation_events_in_sample"] = len(explained)
         if not ok:
